@@ -49,7 +49,9 @@ type c14Case struct {
 	Bound   int             `json:"bound"`
 	// Limit: the client carries a read limit smaller than the handler's
 	// messages, so Receive fails with a non-EOF error while the stream is open.
-	Limit  bool  `json:"limit,omitempty"`
+	Limit bool `json:"limit,omitempty"`
+	// RR: explore around the round-robin default scheduler instead of run-to-block.
+	RR     bool  `json:"rr,omitempty"`
 	Prefix []int `json:"prefix,omitempty"` // schedule (replay)
 }
 
@@ -63,6 +65,9 @@ func (k c14Case) key() string {
 	}
 	if k.Bound > 1 {
 		sp += fmt.Sprintf("/d%d", k.Bound)
+	}
+	if k.RR {
+		sp += "/rr"
 	}
 	return fmt.Sprintf("%s/%s/%s%s/%s", k.Proto, k.ReqMode, k.Client, sp, k.Handler)
 }
@@ -636,6 +641,9 @@ func c14Cases(thorough bool) []c14Case {
 			for _, w := range words {
 				for _, h := range handlers {
 					out = append(out, c14Case{Proto: p, ReqMode: m, Client: w, Handler: h, Bound: 1})
+					if m == memhttp.ReqEager && (len(w) <= 3 || thorough) {
+						out = append(out, c14Case{Proto: p, ReqMode: m, Client: w, Handler: h, Bound: 1, RR: true})
+					}
 					if strings.Contains(w, "R") && !strings.Contains(w, "X") && len(w) <= 4 {
 						out = append(out, c14Case{Proto: p, ReqMode: m, Client: w, Split: true, Handler: h, Bound: 1})
 					}
@@ -650,6 +658,8 @@ func c14Cases(thorough bool) []c14Case {
 }
 
 func c14Explore(t *testing.T, c *ev.Collector, k c14Case) {
+	schedRoundRobin = k.RR
+	defer func() { schedRoundRobin = false }()
 	pred := c14Model(k.Client, k.Handler)
 	if !pred.Admissible {
 		c.AddExtra("inadmissible_pairs_filtered", 1)
@@ -701,7 +711,7 @@ func c14Explore(t *testing.T, c *ev.Collector, k c14Case) {
 func TestC14(t *testing.T) {
 	c := ev.New("C14")
 	defer func() { _ = c.Finish() }()
-	c.SetRule("stateless model checking under the controlled scheduler: for every admissible (client program over {Send,CloseRequest,Receive,CloseResponse,cancel}, handler program {receive i, send j, drain?, nil|error}, protocol, request window) every schedule with at most `preemption_bound` preemptions is executed on the real client/handler; yield points = every statement of duplex_http_call.go, every visible operation elsewhere in the library, every membrane operation; a scenario is distinct by (protocol, window, client word, split, handler program); states = DFS-tree nodes, transitions = scheduler steps")
+	c.SetRule("stateless model checking under the controlled scheduler: for every admissible (client program over {Send,CloseRequest,Receive,CloseResponse,cancel}, handler program {receive i, send j, drain?, nil|error}, protocol, request window) every schedule within the delay bound of the non-preemptive run-to-block default scheduler (and, for eager-window scenarios with short programs, of the round-robin default scheduler) is executed on the real client/handler; yield points = every statement of duplex_http_call.go, every visible operation elsewhere in the library, every membrane operation; a scenario is distinct by (protocol, window, client word, split, handler program); states = DFS-tree nodes, transitions = scheduler steps")
 	c.Assume("memhttp models net/http's RoundTripper/Handler contract (DESIGN 2.3); interleavings inside the real net/http stack are not explored",
 		"statement-granular sequentially consistent interleavings only",
 		"inadmissible pairs (application-level deadlock in the two-process FIFO reference model) are filtered, not judged")
@@ -711,6 +721,7 @@ func TestC14(t *testing.T) {
 			t.Fatal(err)
 		}
 		pred := c14Model(k.Client, k.Handler)
+		schedRoundRobin = k.RR
 		x := runSched(t, k.Prefix, nil, 3000, func(s *bsched.Sched) any { return c14Body(k, s) })
 		fmt.Println("replay:", c14Judge(c, k, x, pred), schedLine(x))
 		return
